@@ -36,7 +36,7 @@ HAS_TIEBREAK = G.STV_FAMILY + ("Plurality", "SNTV", "Borda", "TopTwo", "Alaska")
 
 def generate(run_seed, tier):
     rng = stream(run_seed, "gen")
-    case = G.gen_rule_case(rng, max_c=6 if rng.random() < 0.9 else 7)
+    case = G.gen_rule_case(rng, max_c=6 if rng.random() < 0.9 else 7, pairwise_ties=True)
     case["policies"] = common.gen_policies(rng, run_seed)
     return case
 
